@@ -255,6 +255,8 @@ class Module(ProgramUnit):
     def __setstate__(self, s):
         self.__dict__.update(s)
 
+        self._ast = None
+
         # Re-register all contained procedures in symbol table and update parentage
         if self.contains:
             for node in self.contains.body:
